@@ -92,6 +92,32 @@ func judge(k *kind, valid []byte, input []byte) verdict {
 	return verdict{outcome: out}
 }
 
+// judgeLive: the input is restored into an object that holds the valid material already.
+func judgeLive(k *kind, valid []byte, input []byte) verdict {
+	live, err := k.restore(valid)
+	if err != nil || live == nil {
+		return verdict{outcome: "harness", err: "the valid encoding cannot be restored"}
+	}
+	if panicked, msg, frame := vkit.Try(func() { err = k.reload(live, input) }); panicked {
+		return verdict{outcome: "violation", fs: []finding{{panicSig(k.name, frame, msg) + "|live-object", "restore into a live object panics: " + msg + " in " + frame}}}
+	}
+	if err != nil {
+		return verdict{outcome: "error", err: err.Error()}
+	}
+	var broken []string
+	if panicked, _, _ := vkit.Try(func() { broken = k.rules(live, input) }); panicked {
+		return verdict{outcome: "error"} // the object is in a state the rule checker cannot read: judged by the fresh-object case only
+	}
+	if len(broken) > 0 {
+		var fs []finding
+		for _, b := range broken {
+			fs = append(fs, finding{"restore-accepts|" + k.name + "|live-object|" + b, "bytes that a fresh object refuses are accepted without an error by an object that already held valid material, and the result breaks the rule: " + b})
+		}
+		return verdict{outcome: "violation", fs: fs}
+	}
+	return verdict{outcome: "accepted-valid"}
+}
+
 // ---- instances ------------------------------------------------------------------------------------
 
 func buildInstances() ([]*instance, error) {
@@ -481,6 +507,17 @@ func main() {
 					acceptedBreakers[fmt.Sprintf("%s: %s %s (aimed at: %s) -> %s", in.kind.name, faults.PathClass(path, in.ids), op, rule, v.outcome)]++
 				}
 			case "error":
+				// the same bytes offered to a LIVE object of that type (one that was restored from the valid encoding and
+				// validated before): what a fresh object refuses, a live one must not accept into a state that breaks a rule
+				if in.kind.reload != nil && (!in.kind.costly || class == "semantic") {
+					if lv := judgeLive(in.kind, in.valid, input); lv.outcome == "violation" {
+						k2 := k
+						k2.Class = class + "+live-object"
+						k2.InputHex = hex.EncodeToString(input)
+						report(lv.fs, k2)
+					}
+					outcomes[in.kind.name+"|"+class+"|live-object-checked"]++
+				}
 				if class == "semantic" && isProbe(op) {
 					k.InputHex = hex.EncodeToString(input)
 					res.Violate("restore-refuses|"+in.kind.name+"|"+op, "a legal variant of a valid encoding is refused: "+v.err+"\ncase: "+k.describe(), k)
